@@ -60,7 +60,8 @@ class Devices:
         self, group_address: DeviceGroupAddress
     ) -> Iterator[Device]:
         """Return device(s) by group address."""
-        yield from self.__index.get(group_address, ())
+        # a copy - a device callback may add or remove devices while iterating
+        yield from tuple(self.__index.get(group_address, ()))
 
     def __len__(self) -> int:
         """Return number of devices within vector."""
